@@ -4,7 +4,7 @@
 EXTENDS SendPath, Json
 CONSTANTS EmitHist
 VARIABLES hist
-mv == << backlog, buf, interest, wire, queued, th, lock, crashed, hist >>
+mv == << backlog, buf, interest, wire, queued, th, lock, crashed, full, hist >>
 MInit == Init /\ hist = << >>
 Label(t) == IF th[t].pc = "idle" THEN (IF th'[t].pc = "S1" THEN "send" ELSE "cansend") ELSE th[t].pc
 MNext == \E t \in Threads : /\ StepOf(t)
@@ -13,5 +13,5 @@ MSpec == MInit /\ [][MNext]_mv
 Stuck == ~ENABLED Next
 Bad == ~I_StreamIsQueuedFrames \/ ~I_NoStall \/ crashed
 I_Emit == (EmitHist /\ Stuck) => PrintT(ToJson(<< "HIST", hist, IF crashed THEN "crash" ELSE IF Pending /\ ~interest THEN "stall" ELSE IF wire = Flat(queued) THEN "ok" ELSE "stream" >>))
-View == << backlog, buf, interest, wire, queued, th, lock, crashed >>
+View == << backlog, buf, interest, wire, queued, th, lock, crashed, full >>
 =============================================================================
